@@ -127,8 +127,12 @@ def scaling(ctx, n, b, alpha=2.5, split=None):
     gm = im.calc_cyc_amp_gm_arrays_w_power_law(x, x, n_cyc, b)
     comb = im.calc_cyc_amp_combined_arrays_w_power_law(x, x, n_cyc, b)
     ctx.claim('geometric_mean_of_identical_components', S.sym_and(*[ctx.eq(gm[i], amp[i], 1e3, rtol=1e-7) for i in range(n)]))
+    # comb = 2**b * amp  <=>  comb**(1/b) = 2 * amp**(1/b) for non-negative amplitudes (1/b is an integer here): the
+    # exact algebraic form, with no rounded irrational constant
+    kk = int(round(1.0 / b))
     ctx.claim('combined_identical_components_is_2_pow_b',
-              S.sym_and(*[ctx.eq(comb[i], (2.0 ** b) * amp[i], 1e3, rtol=1e-7) for i in range(n)]))
+              S.sym_and(*[S.sym_and(comb[i] >= 0, amp[i] >= 0, ctx.eq(comb[i] ** kk, 2 * amp[i] ** kk, 1e3 ** kk, rtol=1e-7))
+                          for i in range(n)]))
 
 
 SCENARIOS = {'peak_only': peak_only, 'power_law': power_law, 'scaling': scaling}
